@@ -198,7 +198,8 @@ func accessField(structVal reflect.Value, fieldIdx int, opts *options) (fieldInf
 	}
 
 	// create new context, overwriting configValueHandling for all sub-operations
-	if tagOpts.cfgHandling != opts.configValueHandling {
+	// if the field's tag names a merge policy; otherwise the caller's policy is kept
+	if tagOpts.cfgHandling != cfgDefaultHandling && tagOpts.cfgHandling != opts.configValueHandling {
 		tmp := &options{}
 		*tmp = *opts
 		tmp.configValueHandling = tagOpts.cfgHandling
